@@ -277,15 +277,17 @@ func (w *w6World) installHooks(fs *gofs.InMemoryFS) {
 
 // durablePrefix computes, from the FS alone, how many bytes of the global stream would survive
 // a power loss right now in the worst case (synced content only).
-func (w *w6World) durablePrefix() (int64, error) {
-	hdrs, err := safeScan(w.fs)
+func (w *w6World) durablePrefix() (int64, error) { return w.durablePrefixOf(w.fs) }
+
+func (w *w6World) durablePrefixOf(fs *gofs.InMemoryFS) (int64, error) {
+	hdrs, err := safeScan(fs)
 	if err != nil {
 		return 0, err
 	}
 	var total int64
 	for i, h := range hdrs {
-		sl, ok := w.fs.SimSyncedLen(h.FileName)
-		st, _ := w.fs.Stat(h.FileName)
+		sl, ok := fs.SimSyncedLen(h.FileName)
+		st, _ := fs.Stat(h.FileName)
 		if !ok {
 			break
 		}
@@ -949,6 +951,13 @@ func (w *w6World) verifyReplay(fs *gofs.InMemoryFS, what string, startOff int64,
 		eng.oneByOne = true
 		eng.applyDelay = time.Duration(150+w.c.Intn(400, "slow_engine_ms")) * time.Millisecond
 	}
+	eng.onCommit = func(off int64) {
+		// a replaying process fsyncs the chunk it reads before it announces a position: what it commits
+		// is durable even when the previous process died with written, unsynced bytes
+		if dp, err := w.durablePrefixOf(fs); err == nil && off > dp && !r.Failed() {
+			r.Fail("C18", "commit_beyond_fsync", "reader", "%s: replay delivered Commit(%d) while only %d bytes are durable on disk", what, off, dp)
+		}
+	}
 	bl, err := NewFsBinlog(&binlog.EmptyLogger{}, opt)
 	if err != nil {
 		panic(err)
@@ -1063,7 +1072,13 @@ func (w *w6World) afterCrash(snap []gofs.SimFile, how string) bool {
 				continue
 			}
 		}
-		files = append(files, gofs.SimImageFile{Name: f.Name, Perm: 0640, Content: append([]byte(nil), content...)})
+		im := gofs.SimImageFile{Name: f.Name, Perm: 0640, Content: append([]byte(nil), content...)}
+		if policy == 0 {
+			// the process was killed, the machine kept running: what was written and not synced is still
+			// in the page cache and still not durable
+			im.HasDurable, im.Durable, im.NeverSynced = true, append([]byte(nil), f.Synced...), !f.SyncedValid
+		}
+		files = append(files, im)
 	}
 	r.Extra["crash_images"]++
 	img := gofs.NewMemoryFsFromImage(files)
